@@ -305,7 +305,7 @@ PROPS = {
                                     + [W.gen_world_sparse_candidate(Rng(s, "c16-sparse", i)) for i in range(6)]
                                     + [W.gen_world_c16(Rng(s, "c16", i), i) for i in range(400 if t == "quick" else 8000)],
                 runner=lambda ws: run_with_cli(ws, 66 if len(ws) <= 1000 else 660), with_bin=True),
-    "C13": dict(module="TB.Props.C13", theorems=["C13_all_accounted", "C13_local", "C13_found_all_ok"], clauses=["c13-", "c01-", "c16-", "c12-", "c04-"], worlds=lambda t, s: fault_worlds(t, s) + partial_write_worlds(t, s, "c13-partial") + meta_fault_worlds(t, s)),
+    "C13": dict(module="TB.Props.C13", theorems=["C13_all_accounted", "C13_local", "C13_found_all_ok"], clauses=["c13-", "c01-", "c16-", "c12-", "c04-lost"], worlds=lambda t, s: fault_worlds(t, s) + partial_write_worlds(t, s, "c13-partial") + meta_fault_worlds(t, s)),
     "C11": dict(module="TB.Props.C11", theorems=["C11_replay", "C11_prefix_sound"], clauses=["c11-", "c02-", "c01-"], worlds=crash_worlds, runner=run_crash_cases),
     "C17": dict(module="TB.Props.C17", theorems=["C17_dedup_perm"], clauses=["c17-", "c01-", "c02-", "c03-", "c04-", "c12-"], worlds=meta_worlds, post=compare_groups),
 }
